@@ -9,7 +9,7 @@ Model: `BV/Model/MetaBlock.lean` (`storeCompressedMetaBlockHeader`, `buildHistog
 `storeMetaBlockTrivial`, `storeMetaBlockFast`), composed from the models of C17 (`buildAndStoreHuffmanTree`,
 `buildAndStoreHuffmanTreeFast`), C18 (`getInsertLengthCode`, `getCopyLengthCode`, `copyLenCode`, `encodeMlen`)
 and the raw command record of C14.  SPEC side, written from RFC 7932 independently of the writers:
-`readMetaBlockFull` = §9.2 header (`BV.HeaderSpec.readMetaBlock`, C08/C15) → NBLTYPES×3 / NPOSTFIX / NDIRECT /
+`readMetaBlockFull` / `readMetaBlocks` = §9.2 header (`BV.HeaderSpec.readMetaBlock`, C08/C15) → NBLTYPES×3 / NPOSTFIX / NDIRECT /
 context mode / NTREES×2 (restricted to one block type and one tree per category) → three prefix codes
 (`readCode`: C17's §3.4/§3.5 reader `readPrefixCode`, NSYM = 1 read here) → the §9.3/§10 command loop
 `readCommands` (insert-and-copy symbol, extra bits, literals, distance symbol — implied 0 for symbols < 128 —,
@@ -30,7 +30,7 @@ Histograms: nothing is assumed.  `BuildHistograms` is modelled and proved to cou
 command symbols and distance symbols written (`buildHistograms_inv`); the totals are ≤ MLEN + 1 ≤ 2^24 + 1,
 which is below the 2^25 bound C17 needs for its no-`u32`-wrap hypothesis.
 -/
-import BV.Lemmas.MetaBlockFast
+import BV.Lemmas.MetaBlockWmbi
 
 namespace BV.Props.C01MetaBlock
 open BV.Gen BV.Bits BV.Huffman BV.PrefixArith BV.Recoder BV.MetaBlock BV.HeaderSpec
@@ -90,14 +90,13 @@ theorem trivial_metablock_roundtrip (wo : WordOracle) (window : Nat) (large : Bo
     simpa using hp
 
 /-- **fast_metablock_roundtrip** — `BrotliStoreMetaBlockFast` (quality ≤ 2), BOTH branches: `n_commands ≤ 128`
-(literal code from `BrotliBuildAndStoreHuffmanTreeFast`, the static command code of `StoreStaticCommandHuffmanTree`
-and the static distance code of `StoreStaticDistanceHuffmanTree`) and `n_commands > 128` (three codes from the
-fast builder).  Same statement as `trivial_metablock_roundtrip`: no panic, the RFC reader consumes exactly the
-emitted bits and outputs what `replayCommands` outputs.
-Extra hypothesis `hstatic`, needed only with the large-window distance alphabet: in the `≤ 128` commands branch
-every explicit distance symbol is `< 64` — the static distance code (`kStaticDistanceCodeDepth`, 64 entries) has no
-other symbols and the Rust code indexes it with the symbol (see `static_branch_panics_on_big_symbol`).  Without the
-large-window extension it follows from `cmdOK` (`fast_metablock_roundtrip_std`). -/
+with the standard distance alphabet (literal code from `BrotliBuildAndStoreHuffmanTreeFast`, the static command code of
+`StoreStaticCommandHuffmanTree` and the static distance code of `StoreStaticDistanceHuffmanTree`) and otherwise
+(three codes from the fast builder).  Same statement as `trivial_metablock_roundtrip`: no panic, the RFC reader
+consumes exactly the emitted bits and outputs what `replayCommands` outputs.
+(Before the fix `5ef5adf` of /repo the static branch was also taken with the 140-symbol large-window alphabet and
+panicked on a distance symbol ≥ 64 — `/verif/proposed/fast-static-distance-large-window.md`; the theorem then needed
+the extra hypothesis "≤ 128 commands ⇒ distance symbols < 64".) -/
 theorem fast_metablock_roundtrip (wo : WordOracle) (window : Nat) (large : Bool) (ring : Bytes)
     (start mask : Nat) (mb : Bytes) (isLast : Bool) (cmds : List Cmd) (hist : Bytes) (dc : List Int)
     (w : List Bool)
@@ -105,8 +104,7 @@ theorem fast_metablock_roundtrip (wo : WordOracle) (window : Nat) (large : Bool)
     (h1 : 1 ≤ mb.length) (h2 : mb.length ≤ 2 ^ 24) (hst : start < 2 ^ 64)
     (hIP : inputPairCheck ring start mb.length mask = .ok ())
     (hok : ∀ c ∈ cmds, cmdOK (distAlphabetSize large 0 0) 0 0 c = true)
-    (hlock : lockstep wo 0 0 window mb ⟨hist, dc, 0⟩ 0 cmds = true)
-    (hstatic : cmds.length ≤ 128 → ∀ c ∈ cmds, copyLen c ≠ 0 → c.cmdPrefix ≥ 128 → c.distPrefix % 1024 < 64) :
+    (hlock : lockstep wo 0 0 window mb ⟨hist, dc, 0⟩ 0 cmds = true) :
     ∃ bits out ring',
       storeMetaBlockFast ring start mb.length mask isLast (distAlphabetSize large 0 0) cmds w = .ok (w ++ bits) ∧
       replayCommands wo 0 0 window mb dc hist cmds = some out ∧
@@ -114,7 +112,7 @@ theorem fast_metablock_roundtrip (wo : WordOracle) (window : Nat) (large : Bool)
         = some (⟨out, ring'⟩, isLast, (w ++ bits).length, rest)) ∧
       (replayCommands wo 0 0 window mb dc hist cmds = some (hist ++ mb) → out = hist ++ mb) := by
   obtain ⟨bits, fin, e, hdec, _, hrd⟩ := fast_core wo window large ring start mask mb isLast cmds hist dc w
-    hR h256 h1 h2 (by unfold two64; simpa using hst) hIP hok hlock hstatic
+    hR h256 h1 h2 (by unfold two64; simpa using hst) hIP hok hlock
   refine ⟨bits, fin.out, fin.ring, e, ?_, hrd, ?_⟩
   · unfold replayCommands; rw [hdec]; rfl
   · intro hp
@@ -122,47 +120,18 @@ theorem fast_metablock_roundtrip (wo : WordOracle) (window : Nat) (large : Bool)
     rw [hdec] at hp
     simpa using hp
 
-/-- without the large-window extension `hstatic` is part of `cmdOK` -/
-theorem fast_metablock_roundtrip_std (wo : WordOracle) (window : Nat) (ring : Bytes)
-    (start mask : Nat) (mb : Bytes) (isLast : Bool) (cmds : List Cmd) (hist : Bytes) (dc : List Int)
-    (w : List Bool)
-    (hR : RingHolds ring mask start mb) (h256 : ∀ b ∈ mb, b < 256)
-    (h1 : 1 ≤ mb.length) (h2 : mb.length ≤ 2 ^ 24) (hst : start < 2 ^ 64)
-    (hIP : inputPairCheck ring start mb.length mask = .ok ())
-    (hok : ∀ c ∈ cmds, cmdOK 64 0 0 c = true)
-    (hlock : lockstep wo 0 0 window mb ⟨hist, dc, 0⟩ 0 cmds = true) :
-    ∃ bits out ring',
-      storeMetaBlockFast ring start mb.length mask isLast 64 cmds w = .ok (w ++ bits) ∧
-      replayCommands wo 0 0 window mb dc hist cmds = some out ∧
-      (∀ rest, readMetaBlockFull wo window false w.length ⟨hist, dc⟩ (bits ++ rest)
-        = some (⟨out, ring'⟩, isLast, (w ++ bits).length, rest)) ∧
-      (replayCommands wo 0 0 window mb dc hist cmds = some (hist ++ mb) → out = hist ++ mb) := by
-  have := fast_metablock_roundtrip wo window false ring start mask mb isLast cmds hist dc w hR h256 h1 h2 hst hIP
-    hok hlock (by
-      intro _ c hc _ _
-      have hk := hok c hc
-      simp only [cmdOK, Bool.and_eq_true, decide_eq_true_eq] at hk
-      exact hk.1.1.2)
-  exact this
-
-/-- the static branch of the fast writer on a distance symbol `≥ 64` (possible only with the large-window
-alphabet): the model panics — `kStaticDistanceCodeDepth[dist_code]` is an index out of range in the Rust code.
-The command is the one `Command::new` builds for insert 1, copy 7, distance 2^26 + 5 (symbol 64, 25 extra bits);
-it satisfies `cmdOK`.  Confirmed on the real code (`/verif/proposed/fast-static-distance-large-window.md`). -/
-theorem static_branch_panics_on_big_symbol :
+/-- regression witness for the large-window fix: the command `Command::new` builds for insert 1, copy 7,
+distance 2^26 + 5 (distance symbol 64, 25 extra bits) satisfies `cmdOK`, and the fast writer — which indexed the
+64-entry static distance code with it and panicked before `5ef5adf` — now takes the built-codes branch and returns -/
+theorem fast_writer_large_window_symbol_64 :
     cmdOK 140 0 0 ⟨1, 7, 8, 141, 25664⟩ = true ∧
-    storeMetaBlockFast [65, 65, 65, 65, 65, 65, 65, 65] 0 8 7 true 140 [⟨1, 7, 8, 141, 25664⟩] [] = .panic := by
+    (storeMetaBlockFast [65, 65, 65, 65, 65, 65, 65, 65] 0 8 7 true 140 [⟨1, 7, 8, 141, 25664⟩] []).bind
+      (fun w => .ok w.length) = .ok 96 := by
   constructor
   · decide
   · decide +kernel
 
 /-! ### composing meta-blocks: what `BV/Props/C01.lean` can connect to -/
-
-/-- a piece of the stream that the RFC reader, started at bit position `pos` in decoder state `s`, consumes
-exactly, ending at `pos'` in state `s'` (whatever follows) -/
-def ReadsTo (wo : WordOracle) (window : Nat) (large : Bool) (pos : Nat) (s : RdSt) (bits : List Bool)
-    (last : Bool) (pos' : Nat) (s' : RdSt) : Prop :=
-  ∀ rest, readMetaBlockFull wo window large pos s (bits ++ rest) = some (s', last, pos', rest)
 
 /-- a non-last piece followed by more: the meta-block loop continues behind it from the new state -/
 theorem readMetaBlocks_step (wo : WordOracle) (window : Nat) (large : Bool) (pos pos' : Nat) (s s' : RdSt)
@@ -175,6 +144,71 @@ theorem readMetaBlocks_last (wo : WordOracle) (window : Nat) (large : Bool) (pos
     (bits rest : List Bool) (f : Nat) (h : ReadsTo wo window large pos s bits true pos' s') :
     readMetaBlocks wo window large (f + 1) pos s (bits ++ rest) = some (s', rest) := by
   simp only [readMetaBlocks, h rest]
+
+/-! ### the size decision of `WriteMetaBlockInternal` around the two writers -/
+
+open BV.Stored (writeMetaBlockInternal MbOracle) in
+/-- **wmbi_trivial_roundtrip** — `WriteMetaBlockInternal` at quality 3 (model of its size decision:
+`BV.Stored.writeMetaBlockInternal`, C08 `guard_holds`; compressed attempt = `BrotliStoreMetaBlockTrivial`).
+For EVERY verdict of `should_compress`, appendable / catable / last or not: the attempt is written without panic,
+the call returns, and what it leaves in the storage — the compressed meta-block, or the stored one when the attempt
+was not tried or is more than `len + 4` bytes long, plus the separate empty last meta-block of appendable streams —
+is read by the RFC reader from the decoder state `(hist, dc)` to a state whose output is `hist ++ mb`:
+as one non-last meta-block if the stream goes on, as the end of the stream if `actual_is_last`.
+(`w.length < 256`: the staging storage holds at most the stream head and 7 carry bits, C08 `headLen_lt_256`.) -/
+theorem wmbi_trivial_roundtrip (wo : WordOracle) (window : Nat) (large : Bool) (ring : Bytes)
+    (start mask : Nat) (mb : Bytes) (appendable catable actualIsLast shouldCompress : Bool) (cmds : List Cmd)
+    (hist : Bytes) (dc : List Int) (w : List Bool)
+    (hR : RingHolds ring mask start mb) (h256 : ∀ b ∈ mb, b < 256)
+    (h1 : 1 ≤ mb.length) (h2 : mb.length ≤ 2 ^ 24) (hst : start < 2 ^ 64)
+    (hIP : inputPairCheck ring start mb.length mask = .ok ())
+    (hok : ∀ c ∈ cmds, cmdOK (distAlphabetSize large 0 0) 0 0 c = true)
+    (hlock : lockstep wo 0 0 window mb ⟨hist, dc, 0⟩ 0 cmds = true)
+    (hpay : replayCommands wo 0 0 window mb dc hist cmds = some (hist ++ mb))
+    (hcat : catable = true → appendable = true) (hw : w.length < 256) :
+    ∃ att r bits s'',
+      storeMetaBlockTrivial ring start mb.length mask (if appendable then false else actualIsLast)
+        (distAlphabetSize large 0 0) cmds w = .ok (w ++ att) ∧
+      writeMetaBlockInternal appendable catable actualIsLast mb ⟨shouldCompress, att⟩ w = .ok r ∧
+      r.fin = w ++ bits ∧ s''.out = hist ++ mb ∧
+      (actualIsLast = true → ∀ rest f,
+        readMetaBlocks wo window large (f + 2) w.length ⟨hist, dc⟩ (bits ++ rest) = some (s'', rest)) ∧
+      (actualIsLast = false → ReadsTo wo window large w.length ⟨hist, dc⟩ bits false (w.length + bits.length) s'') := by
+  obtain ⟨att, out, ring', e, _, hrd, hout⟩ := trivial_metablock_roundtrip wo window large ring start mask mb
+    (if appendable then false else actualIsLast) cmds hist dc w hR h256 h1 h2 hst hIP hok hlock
+  have ho := hout hpay
+  obtain ⟨r, bits, s'', a1, a2, a3, a4, a5⟩ := wmbi_reads wo window large appendable catable actualIsLast mb
+    ⟨shouldCompress, att⟩ w ⟨hist, dc⟩ ⟨out, ring'⟩ hcat h1 h2 hw h256 ho
+    (fun _ => by intro rest; rw [hrd rest, List.length_append])
+  exact ⟨att, r, bits, s'', e, a1, a2, a3, a4, a5⟩
+
+open BV.Stored (writeMetaBlockInternal MbOracle) in
+/-- **wmbi_fast_roundtrip** — the same for quality 2 (compressed attempt = `BrotliStoreMetaBlockFast`) -/
+theorem wmbi_fast_roundtrip (wo : WordOracle) (window : Nat) (large : Bool) (ring : Bytes)
+    (start mask : Nat) (mb : Bytes) (appendable catable actualIsLast shouldCompress : Bool) (cmds : List Cmd)
+    (hist : Bytes) (dc : List Int) (w : List Bool)
+    (hR : RingHolds ring mask start mb) (h256 : ∀ b ∈ mb, b < 256)
+    (h1 : 1 ≤ mb.length) (h2 : mb.length ≤ 2 ^ 24) (hst : start < 2 ^ 64)
+    (hIP : inputPairCheck ring start mb.length mask = .ok ())
+    (hok : ∀ c ∈ cmds, cmdOK (distAlphabetSize large 0 0) 0 0 c = true)
+    (hlock : lockstep wo 0 0 window mb ⟨hist, dc, 0⟩ 0 cmds = true)
+    (hpay : replayCommands wo 0 0 window mb dc hist cmds = some (hist ++ mb))
+    (hcat : catable = true → appendable = true) (hw : w.length < 256) :
+    ∃ att r bits s'',
+      storeMetaBlockFast ring start mb.length mask (if appendable then false else actualIsLast)
+        (distAlphabetSize large 0 0) cmds w = .ok (w ++ att) ∧
+      writeMetaBlockInternal appendable catable actualIsLast mb ⟨shouldCompress, att⟩ w = .ok r ∧
+      r.fin = w ++ bits ∧ s''.out = hist ++ mb ∧
+      (actualIsLast = true → ∀ rest f,
+        readMetaBlocks wo window large (f + 2) w.length ⟨hist, dc⟩ (bits ++ rest) = some (s'', rest)) ∧
+      (actualIsLast = false → ReadsTo wo window large w.length ⟨hist, dc⟩ bits false (w.length + bits.length) s'') := by
+  obtain ⟨att, out, ring', e, _, hrd, hout⟩ := fast_metablock_roundtrip wo window large ring start mask mb
+    (if appendable then false else actualIsLast) cmds hist dc w hR h256 h1 h2 hst hIP hok hlock
+  have ho := hout hpay
+  obtain ⟨r, bits, s'', a1, a2, a3, a4, a5⟩ := wmbi_reads wo window large appendable catable actualIsLast mb
+    ⟨shouldCompress, att⟩ w ⟨hist, dc⟩ ⟨out, ring'⟩ hcat h1 h2 hw h256 ho
+    (fun _ => by intro rest; rw [hrd rest, List.length_append])
+  exact ⟨att, r, bits, s'', e, a1, a2, a3, a4, a5⟩
 
 /-- `RingHolds` from a finite check -/
 theorem ringHolds_of_check (ring : Bytes) (mask start : Nat) (mb : Bytes)
